@@ -425,7 +425,8 @@ func (b *assignmentBuilder) resolveExpr(matcher *option.IdentMatcher, root bmode
 			}
 
 			ret, retError, valid := util.ParseGetterReturnTypes(method)
-			if !valid {
+			if !valid || method.Type().(*types.Signature).Params().Len() != 0 {
+				// A getter takes no arguments.
 				return
 			}
 
@@ -504,7 +505,8 @@ func (b *assignmentBuilder) resolveTemplatedExpr(
 			}
 
 			ret, retError, valid := util.ParseGetterReturnTypes(method)
-			if !valid {
+			if !valid || method.Type().(*types.Signature).Params().Len() != 0 {
+				// A getter takes no arguments.
 				return
 			}
 
